@@ -76,7 +76,7 @@ func Run(outDir string, seed int64, tier string) error {
 		}
 		g.pools = append(g.pools, pl)
 	}
-	nSort, nSetup, nAs, nOrd := 300, 250, 500, 60
+	nSort, nSetup, nAs, nOrd := 260, 200, 400, 60
 	if thorough {
 		nSort, nSetup, nAs, nOrd = 4000, 3000, 6000, 600
 	}
@@ -94,7 +94,7 @@ func Run(outDir string, seed int64, tier string) error {
 	// ---- real runs: monitor + DFinish cases ----
 	wg.Wait()
 	var runs []interface{}
-	spreadMax := 0.0
+	spreads := map[string]float64{}
 	for _, r := range results {
 		for _, eo := range r.obs {
 			rep.Count(fmt.Sprintf("run/%s/epoch%d", eo.Scenario, eo.Epoch))
@@ -107,12 +107,28 @@ func Run(outDir string, seed int64, tier string) error {
 			}
 			monitorEpoch(rep, r.sc, &eo, g)
 			summary["signing_subsets"] = eo.Subsets
+			// how far apart the nodes finish (the transition time of a resharing differs between
+			// two nodes exactly when a round boundary falls between their completion instants)
+			if len(eo.Nodes) > 1 && r.sc.Witness == "" {
+				lo, hi := eo.Nodes[0].doneAt, eo.Nodes[0].doneAt
+				for _, o := range eo.Nodes {
+					if o.doneAt.Before(lo) {
+						lo = o.doneAt
+					}
+					if o.doneAt.After(hi) {
+						hi = o.doneAt
+					}
+				}
+				ms := float64(hi.Sub(lo).Microseconds()) / 1000
+				summary["completion_spread_ms"] = ms
+				spreads[eo.Scenario[3:]+fmt.Sprintf("/e%d", eo.Epoch)] = ms
+			}
 			runs = append(runs, summary)
 		}
 	}
 	rep.Extra["runs"] = runs
-	rep.Extra["completion_spread_note"] = "F15: nodes compute the transition time from their own clock when kyber returns; see known_witnesses for the replay"
-	_ = spreadMax
+	rep.Extra["completion_spread_ms"] = spreads
+	rep.Extra["completion_spread_note"] = "F15: each node computes the transition time from its own clock when kyber returns; two nodes disagree exactly when a round boundary falls between their completion instants, i.e. with probability about spread/period per resharing (spreads measured above under the scripted delays); see known_witnesses for the deterministic replay"
 
 	// ---- report ----
 	seen := map[string]bool{}
@@ -182,10 +198,8 @@ func scenarios(rng *rand.Rand, thorough bool) []scenario {
 	}
 	// replay witness: a duplicate of a response bundle of the previous ceremony is delivered to one
 	// node during the next one
-	staleReplay := scenario{Scheme: crypto.DefaultSchemeID, N: 3, Thr: 2, Period: 1000, Sched: none, Reshare: "same", Thr2: 2,
-		// Y = node 2 receives the leader's (node 0) response bundle 500 ms late
-		Sched2: schedule{Name: "slow-link", SlowNode: 2, SlowKind: "response", SlowDelay: 500 * time.Millisecond, SlowFrom: 0, SlowFromSet: true},
-		Phase:  1500 * time.Millisecond, Witness: witnessStale}
+	staleReplay := scenario{Scheme: crypto.DefaultSchemeID, N: 3, Thr: 2, Period: 1000, Sched: none, Reshare: "same", Thr2: 2, Sched2: none,
+		Phase: 1500 * time.Millisecond, Witness: witnessStale}
 	var scs []scenario
 	add := func(sc scenario) {
 		sc.BeaconID = []string{"default", "c06-net"}[len(scs)%2]
@@ -441,7 +455,16 @@ func witnessEpoch(rep *emit.Report, sc scenario, eo *epochObs) {
 			differ = true
 		}
 	}
-	rep.Extra["witness/"+sc.Witness] = map[string]interface{}{"reproduced": differ, "group_sizes": sizes, "completed": len(eo.Nodes), "bus": eo.Stats}
+	samePoly, sameKey := true, true
+	for _, o := range eo.Nodes {
+		if fmt.Sprint(o.Commits) != fmt.Sprint(eo.Nodes[0].Commits) {
+			samePoly = false
+		}
+		if len(o.Commits) == 0 || len(eo.Nodes[0].Commits) == 0 || string(o.Commits[0]) != string(eo.Nodes[0].Commits[0]) {
+			sameKey = false
+		}
+	}
+	rep.Extra["witness/"+sc.Witness] = map[string]interface{}{"reproduced": differ, "group_sizes": sizes, "same_public_polynomial": samePoly, "same_group_key": sameKey, "completed": len(eo.Nodes), "bus": eo.Stats}
 	if !differ {
 		return
 	}
